@@ -22,10 +22,10 @@ def main(argv: List[str]) -> int:
     decls = all_class_decls(mm)
     ua = UnionAnalysis(live, mm)
     what = {
-        "O0": "a valid value makes the union handler raise",
         "O1": "at a union position the result is not an instance of an alternative for which the input is valid (raw dict / wrong class)",
     }
-    cov = U.report_unions(run, live, mm, ua, {"missing", "O0", "O1"}, what)
+    # C03 speaks about successful structuring only: a missing handler or a handler that raises is C01 / C14's subject
+    cov = U.report_unions(run, live, mm, ua, {"O1"}, what, success_only=True)
     res = check_classes(live, mm, decls)
     n1, d1 = _tables.report(run, res, ["class-exists", "attr-for-prop", "annotation"])
     # bounded native sweep: typedness walk over the object graph of every class root
